@@ -1,4 +1,5 @@
 import numpy as np
+from scipy.integrate import trapezoid
 
 
 def get_sig_freq_range(asig, ratio=15):
@@ -28,7 +29,7 @@ def calc_fourier_moment(asig, n):
     -------
 
     """
-    return 2 * np.trapz((2 * np.pi * asig.fa_frequencies) ** n * asig.fa_spectrum ** 2, x=asig.fa_frequencies)
+    return 2 * trapezoid((2 * np.pi * asig.fa_frequencies) ** n * asig.fa_spectrum ** 2, x=asig.fa_frequencies)
 
 
 def get_bandwidth_boore_2003(asig):
